@@ -274,6 +274,9 @@ def cases(tier, rng):
         for No in sorted(nos):
             yield _line(Nb, No, rb(rng, rng.choice((0, 3, Nb // 8, Nb // 8 + 5)))), 'outlen'
         for No in (1, 7, 9, Nb + 1, 2 * Nb - 1, 0): yield _line(Nb, No, b'abc'), 'outlen-bits'
+    # output-length field of the configuration block is 64 bits wide: lengths beyond 2^16 bits (long-output use)
+    for Nb, No in ((512, 65536), (256, 65544)) + (() if quick else ((1024, 1 << 17), (256, (1 << 16) + 7))):
+        if Nb in sizes: yield _line(Nb, No, b'abc'), 'outlen-long'
     # (d) keys: absent, empty, short, one block, longer than a block   x   messages
     for Nb in sizes:
         bs = Nb // 8
